@@ -42,6 +42,12 @@ pub struct NoInfoG<T>(pub T);
 pub struct Inner<T>(pub T);
 #[derive(TypeInfo, Encode)]
 pub struct InnerLt<'a>(pub &'a str);
+/// zero-sized in memory, one byte on the wire
+#[derive(TypeInfo, Encode)]
+pub enum Mode { Strict }
+/// zero-sized in memory, nothing on the wire
+#[derive(TypeInfo, Encode)]
+pub struct UnitS;
 /// a user-defined `encoded_as` target: a u32 written as 4 big-endian bytes
 #[derive(TypeInfo, Encode)]
 pub struct BigEndian32(pub [u8; 4]);
